@@ -289,3 +289,88 @@ Proof.
   - intros c s Hs. cbn [cmp w_metric plain]. unfold w_cmp, w_gamma, w_alpha.
     destruct Hs as [_ [_ [_ [S4 [S5 [S6 S7]]]]]]. rewrite !is_nil_concat by assumption. reflexivity.
 Defined.
+
+(* ---------------------------------------------------------------------------------------- *)
+(* AUC: abstraction = the two (n_tasks x n) matrices of everything seen, row-wise concatenation *)
+Definition rop (a b : mat) : mat := if is_nil a then b else if is_nil b then a else map2 (@app Qc) a b.
+Definition auc_A := (mat * mat)%type.
+Definition auc_op (a b : auc_A) : auc_A := (rop (fst a) (fst b), rop (snd a) (snd b)).
+Definition auc_alpha (s : auc_st) : auc_A := (catrows (fst s), catrows (snd s)).
+Definition mats_ok (l : list mat) : Prop := Forall (fun m => m <> []) l.
+Definition auc_reach (s : auc_st) : Prop := mats_ok (fst s) /\ mats_ok (snd s) /\ List.length (fst s) = List.length (snd s).
+
+Lemma map2app_ne (a b : mat) : a <> [] -> b <> [] -> map2 (@app Qc) a b <> [].
+Proof. destruct a, b; try congruence. intros _ _. discriminate. Qed.
+Lemma rop_assoc a b c : rop a (rop b c) = rop (rop a b) c.
+Proof.
+  unfold rop. destruct a as [|ra a]; [reflexivity|]. destruct b as [|rb b]; [reflexivity|]. destruct c as [|rc c]; [reflexivity|].
+  cbn [is_nil map2]. f_equal; [apply app_assoc|]. apply (map2_assoc (@app Qc) (@app_assoc Qc)).
+Qed.
+Lemma rop_nil_r a : rop a [] = a. Proof. destruct a; reflexivity. Qed.
+Lemma fold_map2app_ne : forall (r : list mat) m, m <> [] -> mats_ok r -> fold_left (map2 (@app Qc)) r m <> [].
+Proof.
+  induction r as [|x r IH]; intros m Hm Hr; cbn [fold_left]; [exact Hm|].
+  inversion Hr; subst. apply IH; [apply map2app_ne; assumption|assumption].
+Qed.
+Lemma catrows_ne l : mats_ok l -> l <> [] -> catrows l <> [].
+Proof. intros H Hl. destruct l as [|m r]; [congruence|]. inversion H; subst. cbn [catrows]. apply fold_map2app_ne; assumption. Qed.
+Lemma catrows_snoc l b : mats_ok l -> b <> [] -> catrows (l ++ [b]) = rop (catrows l) b.
+Proof.
+  intros Hl Hb. destruct l as [|m r]; [reflexivity|]. cbn [app catrows]. rewrite fold_left_app. cbn [fold_left].
+  unfold rop. pose proof (catrows_ne (m :: r) Hl ltac:(discriminate)) as Hn. cbn [catrows] in Hn. unfold mat in *.
+  destruct (fold_left (map2 (@app Qc)) r m) as [|x y] eqn:E; [congruence|]. destruct b; [congruence|]. try rewrite E. reflexivity.
+Qed.
+Lemma mats_snoc l b : mats_ok l -> b <> [] -> mats_ok (l ++ [b]).
+Proof. intros Hl Hb. apply Forall_app. split; [exact Hl|]. constructor; [exact Hb|constructor]. Qed.
+Lemma numel_ne (m : mat) : Nat.eqb (numel m) 0 = false -> m <> [].
+Proof. intros H E. subst. discriminate. Qed.
+Lemma auc_valid_ne c b : auc_valid c b = true -> fst b <> [] /\ snd b <> [].
+Proof.
+  unfold auc_valid. intros H. repeat (apply andb_prop in H as [H ?]).
+  apply negb_true_iff in H. split; [apply numel_ne; exact H|]. apply numel_ne. apply negb_true_iff. assumption.
+Qed.
+Lemma auc_prep_hom s : auc_reach s -> auc_alpha (auc_prep s) = auc_alpha s /\ auc_reach (auc_prep s).
+Proof.
+  intros [H1 [H2 H3]]. unfold auc_prep. destruct (nonnil (fst s) && nonnil (snd s)) eqn:E; [|split; [reflexivity|repeat split; assumption]].
+  apply andb_prop in E as [E1 E2]. apply nonnil_ne in E1. apply nonnil_ne in E2. split; [reflexivity|].
+  unfold auc_reach. cbn [fst snd]. repeat split; try reflexivity; constructor; try constructor; apply catrows_ne; assumption.
+Qed.
+Lemma auc_mrg1_hom s m : auc_reach s -> auc_reach m ->
+  auc_alpha (auc_mrg1 s m) = auc_op (auc_alpha s) (auc_alpha m) /\ auc_reach (auc_mrg1 s m).
+Proof.
+  intros [S1 [S2 S3]] [M1 [M2 M3]]. unfold auc_mrg1. destruct (fst m) as [|x xm] eqn:Ex; cbn [nonnil is_nil negb].
+  - try rewrite Ex in M3. cbn [List.length] in M3. symmetry in M3. apply len0_nil in M3.
+    split; [|repeat split; assumption]. unfold auc_alpha, auc_op. rewrite Ex, M3. cbn [fst snd catrows]. rewrite !rop_nil_r. reflexivity.
+  - rewrite <- Ex in *. assert (Nx : fst m <> []) by (rewrite Ex; discriminate).
+    assert (Ny : snd m <> []) by (intro E; rewrite E in M3; try rewrite Ex in M3; discriminate).
+    pose proof (catrows_ne _ M1 Nx) as Cx. pose proof (catrows_ne _ M2 Ny) as Cy. split.
+    + unfold auc_alpha, auc_op. cbn [fst snd]. rewrite !catrows_snoc by assumption. reflexivity.
+    + unfold auc_reach. cbn [fst snd]. rewrite !app_length. cbn [List.length].
+      repeat split; try (apply mats_snoc; assumption). lia.
+Qed.
+Definition auc_alg : Alg auc_metric.
+Proof.
+  refine (Build_Alg auc_metric auc_A (fun _ => ([], [])) auc_op (fun _ _ => True) _ _ _ _ _
+            (fun _ => auc_alpha) (fun _ b => b) (fun c a => auc_compute (auc_reorder c) (fst a) (snd a))
+            (fun _ => auc_reach) _ _ _ _ _ _ _); try (intros; exact I).
+  - intros [x1 y1] [x2 y2] [x3 y3]. unfold auc_op. cbn [fst snd]. rewrite !rop_assoc. reflexivity.
+  - intros c0 [x y] _. reflexivity.
+  - intros c0 [x y] _. unfold auc_op. cbn [fst snd]. rewrite !rop_nil_r. reflexivity.
+  - intros c0. repeat split; constructor.
+  - reflexivity.
+  - intros c s b [S1 [S2 S3]] Hb. destruct (auc_valid_ne c b Hb) as [Bx By]. cbn [upd auc_metric plain]. split.
+    + unfold auc_alpha, auc_op. cbn [fst snd]. rewrite !catrows_snoc by assumption. destruct b; reflexivity.
+    + unfold auc_reach. cbn [fst snd]. rewrite !app_length. cbn [List.length].
+      repeat split; try (apply mats_snoc; assumption). lia.
+  - intros c s ms Hs Hm. cbn [mrg auc_metric plain]. destruct (auc_prep_hom s Hs) as [Hp Hr].
+    assert (G : forall s', auc_reach s' ->
+              auc_alpha (fold_left auc_mrg1 ms s') = fold_left auc_op (map auc_alpha ms) (auc_alpha s')
+              /\ auc_reach (fold_left auc_mrg1 ms s')).
+    { clear s Hs Hp Hr. induction Hm as [|m ms Hm1 _ IH]; intros s' Hs'; cbn [fold_left map]; [split; [reflexivity|exact Hs']|].
+      destruct (auc_mrg1_hom s' m Hs' Hm1) as [Ha Hr']. destruct (IH _ Hr') as [IHa IHr]. split; [|exact IHr].
+      rewrite IHa, Ha. reflexivity. }
+    destruct (G _ Hr) as [Ga Gr]. split; [|exact Gr]. etransitivity; [exact Ga|]. rewrite Hp. reflexivity.
+  - intros c s Hs. cbn [cmp auc_metric plain]. unfold auc_cmp, auc_alpha. cbn [fst snd].
+    destruct (fst s) as [|x xs]; [reflexivity|]. destruct (snd s) as [|y ys]; [|reflexivity].
+    cbn [is_nil orb catrows]. unfold auc_compute. cbn [numel List.concat List.length]. rewrite orb_true_r. reflexivity.
+Defined.
